@@ -257,7 +257,7 @@ let () =
           (match cs with
            | None -> Printf.printf "%s P err\n" id
            | Some cs -> print_plan id (planChanges fx tx cs))
-        | "engine", "E" ->
+        | ("engine", "E") | ("updown", "U") ->
           let fk = next_bool () in
           let (n1, a) = parse_xschema () in
           (* setup: CREATE TABLE (with inline uniques) + CREATE INDEX per table, in order *)
@@ -299,7 +299,20 @@ let () =
                   Printf.printf "%s I1 %s\n" id (tok_xschema ib);
                   Printf.printf "%s R1 %s\n" id (show_rows d2);
                   Printf.printf "%s FK1 %s\n" id (b01 d2.db_fk);
-                  Printf.printf "%s D2 %s\n" id (show_changes (sqlite_schema_diff no_skip (schema_of n1 ib) (schema_of n1 bx)))))
+                  Printf.printf "%s D2 %s\n" id (show_changes (sqlite_schema_diff no_skip (schema_of n1 ib) (schema_of n1 bx)));
+                  if mode = "updown" then begin
+                    if e <> None then Printf.printf "%s DN skipped\n" id
+                    else if not p.p_reversible then Printf.printf "%s DN irreversible\n" id
+                    else begin
+                      let down = Stdlib.List.concat_map (fun c -> c.pc_reverse) (Stdlib.List.rev p.p_changes) in
+                      let ((d3, k3), e3) = exec_count d2 down O in
+                      (match e3 with
+                       | None -> Printf.printf "%s DN ok\n" id
+                       | Some _ -> Printf.printf "%s DN err@%d\n" id (int_of_nat k3));
+                      Printf.printf "%s I2 %s\n" id (tok_xschema (inspect d3));
+                      Printf.printf "%s R2 %s\n" id (show_rows d3)
+                    end
+                  end))
         | m, o -> failwith ("mode/op " ^ m ^ "/" ^ o)
       end
     done
